@@ -57,7 +57,16 @@ def contentBound (j : JState) (s : SObs) (c k p : Nat) : Nat → Nat → Bool
      | some e => j.bindingOf e.dig == some (c, k, p)
      | none => false) && contentBound j s c k p (idx + 1) n
 
-def judge (j : JState) (op : Op) (cur : Obs) : String :=
+def unkeyedSuffix : String := "server-allocated-unkeyed-evicted"
+
+/-- entries [idx, idx+n) of the log all belong to command `c` -/
+def rangeIsCmd (s : SObs) (c : String) : Nat → Nat → Bool
+  | _, 0 => true
+  | idx, n + 1 => (match s.entry idx with
+                   | some e => e.cmd == c
+                   | none => false) && rangeIsCmd s c (idx + 1) n
+
+def judgeCore (j : JState) (op : Op) (cur : Obs) : String :=
   match op, cur.res with
   | .commit i _ c k p _, ["ok", _, rc, f, l, hw] =>
     (match f.toNat?, l.toNat?, hw.toNat? with
@@ -68,7 +77,8 @@ def judge (j : JState) (op : Op) (cur : Obs) : String :=
        if rc != cs then "viol:receipt-wrong-command"
        else if f = 0 ∨ l < f ∨ l + 1 - f ≠ k then "viol:receipt-wrong-length"
        else if hw ≠ l then "viol:receipt-hw"
-       else if cmdRange after cs ≠ some (f, l) then "viol:receipt-not-in-log"
+       else if (if j.fresh then !rangeIsCmd after cs f (l + 1 - f) else cmdRange after cs ≠ some (f, l)) then
+         "viol:receipt-not-in-log"
        else if !contentBound (j.update op cur) after c k p f (l + 1 - f) then "viol:receipt-for-other-content"
        else
          let own :=
@@ -86,5 +96,12 @@ def judge (j : JState) (op : Op) (cur : Obs) : String :=
          | none => firstBad vs
      | _, _, _ => "viol:unparseable-output")
   | _, _ => "ok"
+
+/-- MessageDB stores fed with server-allocated, unkeyed records store the exact retry of an evicted
+    command again (prepareExactAppendRecordsLocked, sequencedFresh): in such a case a changed retry
+    range is the known class `viol:retry-different-range:server-allocated-unkeyed-evicted`. -/
+def judge (j : JState) (op : Op) (cur : Obs) : String :=
+  let v := judgeCore j op cur
+  if j.fresh ∧ v == "viol:retry-different-range" then v ++ ":" ++ unkeyedSuffix else v
 
 end WK.C03
